@@ -718,10 +718,37 @@ def read_tabulate(it, tab, idx):
     if fname(out) == "ite":
         pass
     if rest and any(not (fname(r) == "slc" and r.args == (NONE_T, NONE_T, NONE_T)) for r in rest):
-        out = op("item", out, sp.Tuple(*rest) if len(rest) > 1 else rest[0])
+        # the stored value is a row (or slab): its element is the same expression of the operands' elements
+        out = index_slab(it, out, rest)
     if remaining:
         out = op("tabrow", out, *remaining)
     return out
+
+
+def index_slab(it, val, rest):
+    """element `rest` (indices for the sliced axes, in order) of a row/slab expression: scalars are unchanged, an operand
+    x[a, :, b, :] becomes x[a, r0, b, r1], arithmetic and ite distribute."""
+    val = to_term(val)
+    full = op("slc", NONE_T, NONE_T, NONE_T)
+    if val.is_number or is_scalar_term(val):
+        return val
+    if isinstance(val, (sp.Add, sp.Mul)):
+        return val.func(*[index_slab(it, a, rest) for a in val.args])
+    if isinstance(val, sp.Pow) and (val.args[1].is_number or is_scalar_term(val.args[1])):
+        return index_slab(it, val.args[0], rest) ** val.args[1]
+    f = fname(val)
+    if f == "ite":
+        return ITE(val.args[0], index_slab(it, val.args[1], rest), index_slab(it, val.args[2], rest))
+    if f == "item":
+        ix = val.args[1]
+        parts = list(ix.args) if isinstance(ix, sp.Tuple) else [ix]
+        nfull = sum(1 for x in parts if x == full)
+        if nfull == len(rest) and nfull > 0:
+            it_rest = iter(rest)
+            return op("item", val.args[0], sp.Tuple(*[next(it_rest) if x == full else x for x in parts]))
+        if nfull == 0 and all(fname(x) != "slc" for x in parts):
+            return val          # an element: a scalar in this expression
+    return op("item", val, sp.Tuple(*rest) if len(rest) > 1 else rest[0])
 
 
 def term_setitem(it, base, idx, value, env, node):
